@@ -122,7 +122,7 @@ impl Prop for C04 {
         "fault_enumeration"
     }
     fn rule(&self) -> String {
-        "complete enumeration: suites x shapes x signer sets x EVERY non-empty cheater subset x 7 wrong-share kinds (incl. cross-session and cancelling) x 3 detection modes + stand-alone share verification; Taproot: both key parities x both R parities forced; tiny field: EVERY error vector in GF(q)^k. Oracle is exact: e_i = z'_i - z_i computed by the harness. Non-trivial = at least one e_i != 0".into()
+        "complete enumeration: suites x shapes x signer sets x EVERY non-empty cheater subset x 7 wrong-share kinds (incl. cross-session and cancelling) x 3 detection modes + stand-alone share verification; Taproot: both key parities x both R parities forced; tiny field: EVERY error vector in GF(q)^k; a below-threshold sub-case (whatever aggregate returns as Ok must verify); one large signer set (100-200) with cheaters at the first, middle and last positions. Oracle is exact: e_i = z'_i - z_i computed by the harness. Non-trivial = at least one e_i != 0".into()
     }
     fn assumptions(&self) -> Vec<String> {
         vec!["wrong-share values on real curves are the 7 structured kinds; every value only on the tiny field".into()]
